@@ -41,4 +41,11 @@ for f in sorted(glob.glob('/tmp/mv/results/*.json')):
     if mid == 'C12-m2':
         meta['confirmed_by_me']['note'] = 'TestDeviceChain failed once in the full-suite run; re-run 5 times with and without the patch: passes both ways (flake)'
     json.dump(meta, open(dst + '/meta.json', 'w'), indent=1)
+# refresh caught_by in every stored meta.json
+for d in sorted(glob.glob('/verif/seeded/C*')):
+    mf = d + '/meta.json'
+    if os.path.exists(mf):
+        m = json.load(open(mf))
+        m['caught_by'] = CAUGHT.get(m['id'], m.get('caught_by', 'not yet run against a check'))
+        json.dump(m, open(mf, 'w'), indent=1)
 print(len(os.listdir('/verif/seeded')) - 1, 'seeded changes kept; discarded:', DISCARD)
